@@ -19,6 +19,10 @@ CHECKS = {
             "R-layout / R-codec references; `_offset_` queried only where the set is small enough to expand"),
     "C14": ("paired-revision workload: live comparison of container layouts/offsets + cross-revision serialize/deserialize against a structural projection oracle, M-bitio sub-reader shadow",
             "R-codec / R-layout references; D is a structure"),
+    "C16": ("M-expand probe on every Operator.expand + M-enum counting proxy for _symbolic.itertools with per-divisor invariants + sys.monitoring step meter, compared across capacity magnitudes congruent mod 64",
+            "cost measured in logical units only; templates too expensive for the unchanged implementation at the smallest magnitude are resampled"),
+    "C18": ("contract monitor over independently built object pairs (reflexive/symmetric/hash/eq-implies-same), introspected list-accessor mutation probe, pickle round-trip fingerprint",
+            "R-bls decides exact set equality when small; approximate BitLengthSet equality may err towards equality as the statement allows"),
 }
 
 NOT_YET = {
